@@ -387,12 +387,18 @@ def url_quote_plus(v, name='(Unknown name)', md={}):
 def url_unquote(v, name='(Unknown name)', md={}):
     if isinstance(v, bytes):
         return urllib.parse.unquote(v.decode('utf-8')).encode('utf-8')
+    if isinstance(v, TaintedString):
+        # keep the taint: unquoting may even add a '<'
+        return TaintedString(urllib.parse.unquote(str(v)))
     return urllib.parse.unquote(str(v))
 
 
 def url_unquote_plus(v, name='(Unknown name)', md={}):
     if isinstance(v, bytes):
         return urllib.parse.unquote_plus(v.decode('utf-8')).encode('utf-8')
+    if isinstance(v, TaintedString):
+        # keep the taint: unquoting may even add a '<'
+        return TaintedString(urllib.parse.unquote_plus(str(v)))
     return urllib.parse.unquote_plus(str(v))
 
 
